@@ -134,6 +134,11 @@ def one_recording(c, nsub, req, stem_in, stem_out, in_blocks, bpf_in, ncards, bl
     if len(set(id(q) for row in rq for q in row)) != na * npol:
         V('shared_stage_objects', '%s: requantisers are shared between antennas / polarisations' % tag, site='RawVoltageBackend.from_data')
         return False
+    inner = [getattr(q, nm, None) for row in rq for q in row for nm in ('quantizer_r', 'quantizer_i')]
+    if all(x is not None for x in inner) and len(set(id(x) for x in inner)) != 2 * na * npol:
+        V('shared_stage_objects', '%s: the real/imaginary quantisers inside the requantisers are shared between antennas / polarisations / components '
+          '(%d distinct objects for %d streams x 2 components)' % (tag, len(set(id(x) for x in inner)), na * npol), site='RawVoltageBackend.from_data')
+        return False
     reads = []
     orig = be._read_next_block
 
@@ -360,6 +365,12 @@ def case_input(c):
         except Exception:
             pass
         in_blocks, bpf_in, ncards, blocsize = write_input(c, stem_in, seed)
+        # a sibling recording in the same directory whose stem merely BEGINS with the input stem (other size and layout):
+        # it is not part of the input
+        try:
+            write_input(c0, stem_in + '_b', seed + 2)
+        except Exception:
+            pass
         if c.get('lazy') == 'default':
             # deterministic process history: a same-shaped filterbank with the DEFAULT window has already made an unseeded
             # default-size estimate in this process
@@ -377,7 +388,7 @@ def case_input(c):
             if viol:
                 break
     finally:
-        for fn in guppi.list_files(stem_in) + guppi.list_files(stem_out):
+        for fn in guppi.list_files(stem_in) + guppi.list_files(stem_in + '_b') + guppi.list_files(stem_out):
             try:
                 os.remove(fn)
             except OSError:
